@@ -67,6 +67,10 @@ type shared18 struct {
 	// receive pointers to it and to rawReg and must only read them.
 	rawPal, rawReg *[64]color.RGBA
 	stops          []generate.GradientStop
+	// stopsUnordered is accepted by the Generator although its offsets decrease;
+	// transforms is passed as a variadic argument from this slice
+	stopsUnordered []generate.GradientStop
+	transforms     []generate.Aff3
 	paths          []string
 	mdPath         *mdicons.Path
 	circ           []mdicons.Circle
@@ -140,8 +144,14 @@ func task18(kind int, in int, sh *shared18, variant uint64) [32]byte {
 			g.SetEllipticalGradient(1, 2, 3, 0, 0, 4, generate.GradientSpreadRepeat, sh.stops)
 		}
 		g.SetPathData(sh.paths[int(variant)%len(sh.paths)], uint8(variant%7))
+		// caller-held slices shared by all pipelines: a transform list handed over
+		// with "..." and a stop list that is not in increasing offset order
+		g.SetTransform(sh.transforms...)
+		g.SetPathData(sh.paths[in%len(sh.paths)], 1)
+		m := generate.Concat(sh.transforms...)
+		g.SetEllipticalGradient(1, 2, 3, 0, 0, 4, generate.GradientSpreadNone, sh.stopsUnordered)
 		o, _ := e.Bytes()
-		return sha256.Sum256(o)
+		return sha256.Sum256(append(append([]byte(nil), o...), []byte(fmt.Sprint(m))...))
 	case 7:
 		d := &rec.Dest{}
 		adjs := map[float32]uint8{}
@@ -203,7 +213,7 @@ func sharedHash18(sh *shared18) [32]byte {
 	for _, b := range sh.inputs {
 		h.Write(b)
 	}
-	h.Write([]byte(fmt.Sprint(*sh.pal, *sh.rawPal, *sh.rawReg, sh.stops, sh.paths, sh.mdPath.D, sh.circ)))
+	h.Write([]byte(fmt.Sprint(*sh.pal, *sh.rawPal, *sh.rawReg, sh.stops, sh.stopsUnordered, sh.transforms, sh.paths, sh.mdPath.D, sh.circ)))
 	var out [32]byte
 	copy(out[:], h.Sum(nil))
 	return out
@@ -271,6 +281,8 @@ func c18Round(c *run.Ctx, idx uint64) {
 	}
 	sh.rawPal, sh.rawReg = &rawPal, &rawReg
 	sh.stops = []generate.GradientStop{{Offset: 0, Color: color.RGBA{0xff, 0, 0, 0xff}}, {Offset: 0.5, Color: color.NRGBA{0, 0xff, 0, 0x80}}, {Offset: 1, Color: color.Gray{0x40}}}
+	sh.stopsUnordered = []generate.GradientStop{{Offset: 1, Color: color.RGBA{0, 0, 0xff, 0xff}}, {Offset: 0.25, Color: color.Gray{0x80}}, {Offset: 0.5, Color: color.RGBA{0xff, 0, 0, 0xff}}, {Offset: 0, Color: color.Black}}
+	sh.transforms = append(make([]generate.Aff3, 0, 5), generate.Scale(2, 3), generate.Translate(-4, 5), generate.Scale(0.5))
 	for i := 0; i < 3; i++ {
 		s, _ := gen.PathString(r, true)
 		sh.paths = append(sh.paths, s)
